@@ -96,6 +96,31 @@ var c11CurJWKS []byte
 var c11STSNoExpiry bool
 var c11HugeNumber bool
 
+// access tokens in JWT format handed to the introspection scenario: issued once per run, user and kind
+var (
+	c11Genuine = map[string]bool{}
+	c11Shaped  = map[string]string{}
+)
+
+func c11ShapedToken(user string, forged bool) string {
+	k := fmt.Sprintf("%s/%v", user, forged)
+	if tok, ok := c11Shaped[k]; ok {
+		return tok
+	}
+	now := time.Now().Unix()
+	claims := map[string]any{"iss": "iss1", "jti": "j-" + user, "sub": user, "iat": now - 1, "exp": now + 7200}
+	key := simkeys.FixtureKey("rsa2048")
+	if forged {
+		key = simkeys.FixtureKey("rsa2048b") // same issuer, same token id, same subject - not issued by the provider
+	}
+	tok := simkeys.SignJWTAlg(key, "k1", jose.RS256, claims) // (a signature scheme without randomness: equal runs, equal tokens)
+	c11Shaped[k] = tok
+	if !forged {
+		c11Genuine[tok] = true
+	}
+	return tok
+}
+
 // installParties registers the stateless simulated parties.
 func c11Parties(e *env) {
 	// identity provider for the (uncached) subject-producing authenticator and for the introspection scenario
@@ -110,6 +135,15 @@ func c11Parties(e *env) {
 		case "/introspect":
 			vals := parseForm(string(body))
 			user := vals["token"]
+			if strings.Count(user, ".") == 2 {
+				// access tokens in JWT format: only those this provider issued are active, whatever a token claims
+				if !c11Genuine[user] {
+					json.NewEncoder(w).Encode(map[string]any{"active": false})
+					return
+				}
+				pl, _ := simkeys.JWTPayload(user)
+				user, _ = pl["sub"].(string)
+			}
 			scope := "read"
 			if user == "bob" {
 				scope = "read admin"
@@ -478,6 +512,10 @@ func c11Build(s *simcore.Source) c11Scenario {
 		}
 		sc.rules = fmt.Sprintf(c11RuleTpl, step1, step2)
 		sc.describe = fmt.Sprintf("headers=%v endpoint-auth=%v", hkeys, epAuth != "")
+		if s.Draw(3, "jwt-shaped-access-tokens") == 2 {
+			sc.variation = "jwt-shaped-tokens"
+			sc.usesExtra, sc.extraHow = true, "selects the token the provider issued or a forged one naming the same issuer, token id and subject"
+		}
 	case "jwt-authn":
 		// two jwt authenticators on one key-set endpoint which differ in how far they trust the published key: the
 		// certificate of the key chains to CA 1; the second authenticator trusts CA 2 only
@@ -586,6 +624,9 @@ func c11Do(e *env, sc c11Scenario, q c11Req) c11Obs {
 			hdr["Authorization"] = "Bearer " + simkeys.SignJWT(key, kid, map[string]any{"iss": iss, "sub": q.user, "iat": now - 1, "exp": now + 3600})
 		}
 	}
+	if sc.kind == "introspection" && sc.variation == "jwt-shaped-tokens" {
+		hdr["Authorization"] = "Bearer " + c11ShapedToken(q.user, q.extra == "xb")
+	}
 	if q.extra != "" {
 		hdr["X-Extra"] = q.extra
 	}
@@ -641,6 +682,7 @@ func c11Sim(r *simcore.Run) {
 			}
 			defer func() { envMutate = nil }()
 		}
+		c11Genuine, c11Shaped = map[string]bool{}, map[string]string{}
 		c11IssuerJWKS = map[string][]byte{
 			"ab": simkeys.JWKSJSON(jose.JSONWebKey{Key: c11JWTKey.Public(), KeyID: "c", Algorithm: string(simkeys.AlgFor(c11JWTKey)), Use: "sig"}),
 			"a":  simkeys.JWKSJSON(jose.JSONWebKey{Key: c11JWTKey2.Public(), KeyID: "bc", Algorithm: string(simkeys.AlgFor(c11JWTKey2)), Use: "sig"}),
